@@ -140,7 +140,8 @@ class TBRMMData:
       if geos_missing:
         raise ValueError('Required geos {} were not found '
                          'in the data'.format(sorted(geos_missing)))
-      df_elig = geo_eligibility.data.loc[common_geos]
+      in_data = [geo in common_geos for geo in geo_eligibility.data.index]
+      df_elig = geo_eligibility.data.loc[in_data]
       geo_eligibility = GeoEligibility(df_elig)
       geo_assignments = geo_eligibility.get_eligible_assignments()
 
